@@ -23,6 +23,14 @@ CHECKS = {
  'C10': ('model_checking', "Same engine on the real run_feedforward_filter body: termination within fuel, strictly increasing result index starting at the first input time, step bound max(time_step, local gap), every in-span sample used exactly once in time order, positive propagation interval when it is a divisor, documented defaults.",
          B_NOTE, B_TECH, "DESIGN.md 2.2, 5/C10"),
 }
+def A(text, ref):
+    return ('other', text + " Obligations are the negated identities/inequalities over one symbolic execution of the real functions (all inputs at once); `sat` answers are triaged with the true functions and replayed on the compiled code; canary mutants of the real source must be refuted.", A_NOTE, A_TECH, ref)
+
+
+CHECKS.update({
+ 'C17': A("Euler convention of mat_from_rph against the textbook body->NED matrix and the images of the body axes, proper rotation, round trip through mat_to_rph, both branches of the kernel's mat_from_rotvec (path fork on the norm threshold; trig branch characterised as exp([v x]); Taylor branch within 1e-18 by alternating-series enclosures), _phi_to_delta_rph as the eps^1 coefficient of the Euler angles under a platform rotation, stacked = single.", "DESIGN.md 5/C17"),
+})
+
 NA = {
  'C19': "purity/aliasing/determinism/schema are value-independent facts about numpy/pandas/scipy C internals; a symbolic run must replace exactly those internals by models, so there is nothing for a solver to quantify over (DESIGN.md section 6)",
 }
